@@ -41,6 +41,21 @@ def json_of(b):
     return json.dumps(list(b), separators=(',', ':')).encode()
 
 
+# derive(Deserialize) newtypes over [u8; 32]: a format-less SeqDeserializer hands the newtype visitor the sequence itself,
+# which is a property of that deserializer, not of the crates, so no expectation is attached there
+DERIVED_NEWTYPES = ('montgomery', 'xpublic', 'xstatic')
+
+
+def dej(ctx, ty, raw, expect, cls):
+    """the byte sequence `raw` offered as a sequence in each shape a data format may give it: JSON text (no size
+    hint), serde_json::Value and a plain SeqDeserializer (exact size hints)"""
+    j = json_of(raw).hex()
+    ctx.add('sd.de', ty, 'json', j, expect=expect, cls=cls)
+    ctx.add('sd.de', ty, 'jsonvalue', j, expect=expect, cls=cls)
+    if ty not in DERIVED_NEWTYPES:
+        ctx.add('sd.de', ty, 'seqhint', hx(raw), expect=expect, cls=cls)
+
+
 def value_for(rng, ty):
     """(cls, bytes) candidate native values incl. invalid ones"""
     r = rng.random()
@@ -85,7 +100,9 @@ def gen(ctx, n):
             else:
                 ctx.add('sd.rt', ty, b.hex(), expect=['native-reject'], cls=[c])
             # deserialisers applied to the raw candidate: accept set equals the native decoder's
-            for fmt, p in (('bin', binp), ('binstrict', binp), ('json', jsp)):
+            for fmt, p in (('bin', binp), ('binstrict', binp), ('json', jsp), ('jsonvalue', jsp), ('seqhint', b)):
+                if fmt == 'seqhint' and ty in DERIVED_NEWTYPES:
+                    continue
                 if canon is not None:
                     ctx.add('sd.de', ty, fmt, p.hex(), expect=['ok', canon.hex()], cls=['de:' + ty, c])
                 else:
@@ -98,8 +115,8 @@ def gen(ctx, n):
                     good = to32(1) if ty != 'signature' else bytes(64)
             sz = size(ty)
             short, long_ = good[:sz - 1], good + b'\0'
-            ctx.add('sd.de', ty, 'json', json_of(short).hex(), expect=['err'], cls='reject:short')
-            ctx.add('sd.de', ty, 'json', json_of(long_).hex(), expect=['err'], cls='reject:long')
+            dej(ctx, ty, short, ['err'], 'reject:short')
+            dej(ctx, ty, long_, ['err'], 'reject:long')
             ctx.add('sd.de', ty, 'binstrict', bincode_of(ty, short).hex(), expect=['err'], cls='reject:short')
             ctx.add('sd.de', ty, 'binstrict', bincode_of(ty, long_).hex(), expect=['err'], cls='reject:long')
             ctx.add('sd.de', ty, 'bin', bincode_of(ty, short).hex(), expect=['err'], cls='reject:short')
@@ -109,7 +126,7 @@ def gen(ctx, n):
                     continue
                 blob = (good * 5)[:ln]
                 cl = 'reject:short' if ln < sz else 'reject:long'
-                ctx.add('sd.de', ty, 'json', json_of(blob).hex(), expect=['err'], cls=cl)
+                dej(ctx, ty, blob, ['err'], cl)
                 ctx.add('sd.de', ty, 'binstrict', hx(bincode_of(ty, blob)), expect=['err'], cls=cl)
                 if ty in BYTES_STYLE or ln < sz:
                     ctx.add('sd.de', ty, 'bin', hx(bincode_of(ty, blob)), expect=['err'], cls=cl)
@@ -123,10 +140,11 @@ def gen(ctx, n):
                 k = rng.randrange(len(arr))
                 bad = rng.choice([256, -1, 1.5, "x", None, [1]])
                 arr[k] = bad
-                ctx.add('sd.de', ty, 'json', json.dumps(arr).encode().hex(), expect=['err'], cls='reject:wrong-type')
-                ctx.add('sd.de', ty, 'json', json.dumps("00" * sz).encode().hex(), expect=['err'], cls='reject:wrong-type')
-                ctx.add('sd.de', ty, 'json', json.dumps({"a": 1}).encode().hex(), expect=['err'], cls='reject:wrong-type')
-                ctx.add('sd.de', ty, 'json', b'[]'.hex(), expect=['err'], cls='reject:short')
+                for jf in ('json', 'jsonvalue'):
+                    ctx.add('sd.de', ty, jf, json.dumps(arr).encode().hex(), expect=['err'], cls='reject:wrong-type')
+                    ctx.add('sd.de', ty, jf, json.dumps("00" * sz).encode().hex(), expect=['err'], cls='reject:wrong-type')
+                    ctx.add('sd.de', ty, jf, json.dumps({"a": 1}).encode().hex(), expect=['err'], cls='reject:wrong-type')
+                    ctx.add('sd.de', ty, jf, b'[]'.hex(), expect=['err'], cls='reject:short')
                 ctx.add('sd.de', ty, 'bin', '-', expect=['err'], cls='reject:short')
 
 
